@@ -7,7 +7,7 @@ COQ_FILES = ["theories/BandTie.v", "theories/Prune.v", "theories/PyDist.v", "the
              "theories/PyDistPrune.v", "gen/Gen_cdist.v", "theories/CDistCanon.v", "theories/CDistTie.v",
              "theories/CDistProofs.v", "theories/CDistSpec.v", "gen/Gen_ced.v", "theories/CEd.v", "gen/Gen_pydist.v", "theories/PyDistGen.v",
              "gen/Gen_cwpsk.v", "gen/Gen_cexpw.v", "theories/CWpsCanon.v", "theories/CWpsCanonEu.v", "theories/CWpsKernel.v", "theories/CWpsTie.v", "theories/CWpsTieEu.v",
-             "theories/CWpsValue.v", "theories/CWpsSpec.v", "theories/CWpsSpecEu.v", "theories/CWpsPrune.v", "theories/CWpsSpecB.v", "theories/CWpsSpecBEu.v", "theories/CWpsValueB.v", "theories/CExpW.v", "gen/Gen_cparts.v", "theories/CParts.v", "theories/CWpsFinal.v", "props/C03.v"]
+             "theories/CWpsValue.v", "theories/CWpsSpec.v", "theories/CWpsSpecEu.v", "theories/CWpsPrune.v", "theories/CWpsSpecB.v", "theories/CWpsSpecBEu.v", "theories/CWpsValueB.v", "theories/CExpW.v", "theories/CWpsMarks.v", "gen/Gen_cparts.v", "theories/CParts.v", "theories/CWpsFinal.v", "props/C03.v"]
 THEOREMS = [("DVProps.C03", "C03_pruning_sound_partial"), ("DVProps.C03", "C03_max_dist_result_partial"),
             ("DVProps.C03", "C03_euclidean_bound_keeps_value"), ("DVProps.C03", "C03_pruned_code_model_exact"),
             ("DVProps.C03", "C03_c_kernel_result_is_bounded_value"), ("DVProps.C03", "C03_c_kernel_no_bound_no_cut"),
